@@ -241,9 +241,11 @@ static uint32_t g_spurious_one_in = 0;
 static const char* strategy_names[] = {"nonpreemptive", "random", "sticky", "pct", "starve"};
 
 // result accumulation (per worker run index)
+struct ExtraViolation { std::string cls, sig, detail; };
 struct Result {
     bool violation = false;
     std::string cls, sig, detail;
+    std::vector<ExtraViolation> more;   // further distinct signatures of the same run (enumeration modes)
     std::map<std::string, uint64_t> probes, faults;
     std::string notes;
     std::string sample;
@@ -380,6 +382,12 @@ static void print_result_line(bool fatal_flag) {
         o += ",\"sig\":\"" + json_escape(g_res.sig) + "\"";
         o += ",\"detail\":\"" + json_escape(g_res.detail) + "\"";
         o += fatal_flag ? ",\"fatal\":true" : ",\"fatal\":false";
+        o += ",\"more\":[";
+        for (size_t k = 0; k < g_res.more.size(); ++k) {
+            if (k) { o += ","; }
+            o += "{\"class\":\"" + json_escape(g_res.more[k].cls) + "\",\"sig\":\"" + json_escape(g_res.more[k].sig) + "\",\"detail\":\"" + json_escape(g_res.more[k].detail.substr(0, 1500)) + "\"}";
+        }
+        o += "]";
     }
     snprintf(b, sizeof(b), ",\"hash\":\"%016" PRIx64 "\",\"schedsig\":\"%016" PRIx64 "\",\"steps\":%" PRIu64 ",\"switches\":%" PRIu64 ",\"choice_points\":%" PRIu64 ",\"max_enabled\":%" PRIu64 ",\"simtime_us\":%" PRId64 ",\"subruns\":%" PRIu64,
              g_hash, g_sig, g_steps, g_switches, g_choice_points, g_max_enabled, (g_res.simtime_ns + g_now) / 1000, g_res.subruns);
@@ -505,7 +513,15 @@ void report(const char* cls, const std::string& sig, const std::string& detail) 
         g_res.cls = cls;
         g_res.sig = sig;
         g_res.detail = detail;
+        return;
     }
+    // keep every further *distinct* signature: one run of an enumeration mode covers hundreds of fault points, and a
+    // known finding reported first must not hide a different violation found later in the same run
+    if (sig == g_res.sig || g_res.more.size() >= 24) { return; }
+    for (const auto& m : g_res.more) {
+        if (m.sig == sig) { return; }
+    }
+    g_res.more.push_back(ExtraViolation{cls, sig, detail});
 }
 
 [[noreturn]] void fatal(const char* cls, const std::string& sig, const std::string& detail) {
